@@ -196,6 +196,10 @@ def run_typed(prop, check, tier, scratch, record, level, rule, assume, describe_
     if with_witnesses:
         witnesses(scratch, binary, out)
     nfr = 0
+    if check == "C04":
+        # the float texts of FloatText.tla, encoded and decoded back (a round trip of every number)
+        ftres, nfr = float_text(scratch, tier, binary, out)
+        tl.append(ftres)
     if check == "C01":
         fres, nfr = field_rules(scratch, tier, binary, "encode", out)
         tl.append(fres)
@@ -208,7 +212,9 @@ def run_typed(prop, check, tier, scratch, record, level, rule, assume, describe_
         prec["table"] = "<exported by TLC at run time>"
     cov = dict(rule=rule % dict(ntypes=ntypes, nmodes=4 + params["rand_modes"] + len(params.get("modes") or [])),
                exhaustive=True, traces_validated_against_impl=ntypes + nfr)
-    if nfr:
+    if nfr and check == "C04":
+        cov["rule"] += "; plus %d float texts emitted by TLC from FloatText.tla (both signs), encoded in 5 positions and decoded back" % nfr
+    elif nfr:
         cov["rule"] += ("; plus %d field-rule programs (FieldRules.tla; filled and nil-pointer values) and float texts (FloatText.tla; both "
                         "signs, 5 positions, decoded back)" % nfr)
     f = vlib.Findings(prop)
